@@ -514,6 +514,20 @@ func checkReturn(e *Engine, sp lexSpec, name string, st *State, ret []AbsVal, at
 		return
 	}
 	// non-error token
+	if st.wrote != 0 && tt.k == vInt {
+		// R-INPLACE: which tokens may come with rewritten input bytes
+		allowed := map[string]map[string]uint8{
+			"html": {"StartTagToken": wroteFold, "EndTagToken": wroteFold, "AttributeToken": wroteFold, "SVGToken": wroteFold, "MathToken": wroteFold, "XMLToken": wroteFold}, // foreign-content tokens start with their (folded) tag name
+			"xml":  {"AttributeToken": wroteSpace},
+		}[sp.rel]
+		okW := true
+		for _, v := range tt.ints {
+			if st.wrote&^allowed[tokName(e.r, sp.rel, v)] != 0 {
+				okW = false
+			}
+		}
+		e.check(st, "R-INPLACE", key+" rewrites only what the token may rewrite", pos, okW, fmt.Sprintf("the call returns %s after rewriting input bytes in place (case folding: %v, tab/newline to space: %v, other store: %v): the only bytes a lexer may alter are the ASCII case of HTML tag and attribute names and tab/newline inside quoted XML attribute values; anything else makes tokens differ from the input they are slices of (copy first: parse.Copy)", tokSet(e.r, sp.rel, tt), st.wrote&wroteFold != 0, st.wrote&wroteSpace != 0, st.wrote&wroteOther != 0))
+	}
 	data := ret[1]
 	nonEmpty := data.k == vSlice && data.lenLo >= 1
 	e.check(st, "R-PROGRESS", key+" non-empty", pos, nonEmpty, fmt.Sprintf("a non-error token (%s) may be empty (%s): repeated calls need not make progress", tokSet(e.r, sp.rel, tt), data))
